@@ -3,7 +3,10 @@
 Extracted from /repo's working tree on every run:
   * hop_pattern.rs  lexer : RESERVED_CHARS, the characters skipped as whitespace by `next_token`,
                             the single-character token table ('?' => QMark, ...)
-                    parser: NO_BIND_POWER, OR_BIND_POWER, the grouping of `|`
+                    parser: NO_BIND_POWER, OR_BIND_POWER, the grouping of `|`, MAX_EXPRESSION_DEPTH with
+                            the places where it is enforced (comparison, nesting of `(` and of the right-hand
+                            side of `|`, depth of postfix / infix nodes, nesting of the top-level call, depth
+                            of a hop predicate)
   * acl.rs                : the operator characters of `AclEntryOperator::parse`
   * identifier/asn.rs     : BITS, BITS_PER_PART, NUMBER_PARTS, WILDCARD, the decimal/hex format boundary
   * identifier/isd.rs     : WILDCARD, the width of the ISD integer
@@ -95,10 +98,36 @@ def register(api):
             raise api.ExtractError("infix table entry for `|` not found")
         vals["OR_LEFT_TO_RIGHT"] = (m.group(1) == "LeftToRight")
         # quantifier kinds -> expression constructors (postfix table)
-        post = re.findall(r"Some\(TokenKind::(\w+)\)\s*=>\s*\{\s*self\.consume\(\);\s*expr\s*=\s*HopPatternExpression::(\w+)\(", src)
+        post = re.findall(r"Some\(TokenKind::(\w+)\)\s*=>\s*\{\s*depth\s*=\s*self\.consume_postfix\(depth\)\?;\s*expr\s*=\s*HopPatternExpression::(\w+)\(", src)
         if sorted(post) != sorted([("QMark", "Optional"), ("Plus", "OneOrMore"), ("Star", "ZeroOrMore")]):
             raise api.ExtractError(f"postfix operator table changed: {post}")
         vals["POSTFIX"] = ",".join(f"{a}:{b}" for a, b in post)
+        # depth limit: the constant and every place that enforces it
+        vals["MAX_EXPRESSION_DEPTH"] = api.eval_const("MAX_EXPRESSION_DEPTH", consts, types)
+        need = {
+            "comparison `depth > MAX_EXPRESSION_DEPTH` in check_depth":
+                r"fn\s+check_depth\(depth:\s*usize,\s*span:\s*\(usize,\s*usize\)\)[^{]*\{\s*if\s+depth\s*>\s*MAX_EXPRESSION_DEPTH\s*\{\s*return\s+Err\(",
+            "nesting check before the parenthesised sub-expression":
+                r"Some\(\(TokenKind::LParen,\s*span_l\)\)\s*=>\s*\{\s*Self::check_depth\(nesting\s*\+\s*1,\s*span_l\)\?;\s*let\s+nested\s*=\s*self\.parse_expr\(NO_BIND_POWER,\s*nesting\s*\+\s*1\)\?;",
+            "nesting check before the right-hand side of an infix operator":
+                r"let\s+op_span\s*=\s*self\.tokens\[self\.pos\]\.span;\s*Self::check_depth\(nesting\s*\+\s*1,\s*op_span\)\?;\s*self\.consume\(\);",
+            "depth of an infix node":
+                r"let\s*\(right_expr,\s*right_depth\)\s*=\s*self\.parse_expr\(rhs_binding_power,\s*nesting\s*\+\s*1\)\?;\s*depth\s*=\s*depth\.max\(right_depth\)\s*\+\s*1;\s*Self::check_depth\(depth,\s*op_span\)\?;\s*expr\s*=\s*build_infix\(expr,\s*right_expr\);",
+            "depth of a postfix node":
+                r"fn\s+consume_postfix\(&mut\s+self,\s*operand_depth:\s*usize\)[^{]*\{\s*Self::check_depth\(operand_depth\s*\+\s*1,\s*self\.tokens\[self\.pos\]\.span\)\?;\s*self\.consume\(\);\s*Ok\(operand_depth\s*\+\s*1\)",
+            "result of parse_expr": r"Ok\(\(expr,\s*depth\)\)",
+        }
+        for what, rx in need.items():
+            if not re.search(rx, src):
+                raise api.ExtractError(f"depth limit: {what} not found")
+        m = re.search(r"self\.parse_expr\(NO_BIND_POWER,\s*(\d+)\)\?;\s*hop_pattern\.push\(expr\)", src)
+        if not m:
+            raise api.ExtractError("depth limit: nesting of the top-level parse_expr call not found")
+        vals["TOP_NESTING"] = int(m.group(1))
+        m = re.search(r"\(pred,\s*(\d+)\)", src)
+        if not m:
+            raise api.ExtractError("depth limit: depth of a hop predicate not found")
+        vals["PRED_DEPTH"] = int(m.group(1))
 
         # ACL operators
         acl = api.strip_comments(api.read(ACL))
@@ -170,6 +199,12 @@ def register(api):
         for n in ["NO_BIND_POWER", "OR_BIND_POWER"]:
             b += f"def {n} : Nat := {vals[n]}\n"
         b += f"def OR_LEFT_TO_RIGHT : Bool := {'true' if vals['OR_LEFT_TO_RIGHT'] else 'false'}\n"
+        b += "/-- `parser::MAX_EXPRESSION_DEPTH`: bound on the nesting of `parse_expr` calls and on the depth of a parsed expression -/\n"
+        b += f"def MAX_EXPRESSION_DEPTH : Nat := {vals['MAX_EXPRESSION_DEPTH']}\n"
+        b += "/-- `nesting` argument of the top-level `parse_expr` call in `HopPatternParser::parse` -/\n"
+        b += f"def TOP_NESTING : Nat := {vals['TOP_NESTING']}\n"
+        b += "/-- depth that `parse_expr` assigns to a hop predicate -/\n"
+        b += f"def PRED_DEPTH : Nat := {vals['PRED_DEPTH']}\n"
         b += f"def ACL_ALLOW : Char := {lean_char(vals['ACL_ALLOW'])}\n"
         b += f"def ACL_DENY : Char := {lean_char(vals['ACL_DENY'])}\n"
         for n in ["ASN_BITS", "ASN_BITS_PER_PART", "ASN_NUMBER_PARTS", "ASN_WILDCARD", "ASN_DECIMAL_MAX",
